@@ -17,6 +17,9 @@ import (
 
 type threadKill struct{}
 
+// goexitSignal unwinds a thread that called runtime.Goexit (running its deferred calls).
+type goexitSignal struct{}
+
 type gthread struct {
 	id      int
 	wake    chan struct{}
@@ -77,6 +80,7 @@ func (i *interpreter) spawn(fr *frame, pos token.Pos, fn value, args []value) {
 	s := i.path.sched
 	t := &gthread{id: len(s.threads), wake: make(chan struct{}, 1)}
 	s.threads = append(s.threads, t)
+	i.refreshRacy()
 	go func() {
 		<-t.wake
 		if s.killed {
@@ -88,6 +92,9 @@ func (i *interpreter) spawn(fr *frame, pos token.Pos, fn value, args []value) {
 				return
 			}
 			t.done = true
+			if _, isExit := r.(goexitSignal); isExit {
+				r = nil // runtime.Goexit: the deferred calls have run, the thread just ends
+			}
 			if r != nil {
 				t.panicv = r
 			}
@@ -242,19 +249,42 @@ func (i *interpreter) racyCell(addr *value) bool {
 
 // registerRacy records the cell of a package-level variable and, recursively,
 // the cells of its struct fields and array elements, and maps held directly.
-func (s *sched) registerRacy(addr *value) {
+func (s *sched) registerRacy(addr *value) { s.registerRacyDepth(addr, 2) }
+
+// refreshRacy re-walks the package-level variables under SharedGlobals (called when a thread
+// is spawned: by then initialisers have run and pointers held by globals have their targets).
+func (i *interpreter) refreshRacy() {
+	s := i.path.sched
+	if s == nil || s.racyPrefix == "" {
+		return
+	}
+	for g, addr := range i.globals {
+		if i.racyGlobal(g) {
+			delete(s.racy, addr)
+			s.registerRacy(addr)
+		}
+	}
+}
+
+// registerRacyDepth: depth bounds how many pointers are followed from the variable itself
+// (`var scratch = &T{}` is as much a shared scratch value as `var scratch T`).
+func (s *sched) registerRacyDepth(addr *value, depth int) {
 	if addr == nil || s.racy[addr] {
 		return
 	}
 	s.racy[addr] = true
 	switch v := (*addr).(type) {
+	case *value:
+		if depth > 0 && v != nil {
+			s.registerRacyDepth(v, depth-1)
+		}
 	case structure:
 		for k := range v {
-			s.registerRacy(&v[k])
+			s.registerRacyDepth(&v[k], depth)
 		}
 	case array:
 		for k := range v {
-			s.registerRacy(&v[k])
+			s.registerRacyDepth(&v[k], depth)
 		}
 	case *omap:
 		if v != nil {
